@@ -2,7 +2,9 @@
 EXTENDS RouterTrace
 MT == INSTANCE MqttTopic
 TTopics == {<<"a", "/", "b">>, <<"a", "/", "c">>, <<"$", "x">>, <<"b">>}
-TFilters == {<<"a", "/", "b">>, <<"a", "/", "+">>, <<"#">>, <<"b">>, <<"a", "/", "c">>}
+TPlain == {<<"a", "/", "b">>, <<"a", "/", "+">>, <<"#">>, <<"b">>, <<"a", "/", "c">>}
+TFilters == TPlain \cup {<<"$share/", "g", "/", "a", "/", "b">>, <<"$share/", "h", "/", "a", "/", "b">>, <<"$share/", "g", "/", "a", "/", "c">>,
+                          <<"$share/", "g", "/", "a", "/", "+">>}
 TMatch == {<<t, f>> \in TTopics \X TFilters : MT!Matches(t, f)}
 TNoWill == [n \in Nets |-> NOMSG]
 TNetCid == [n \in Nets |-> "c1"]
